@@ -26,7 +26,7 @@ BASE = dict(NS=4, NG=1, PBases='<-PB_Fork', Names='<-NamesEN',
             SubKeys='<-None', LookKeys='<-None', ValMode='"keyed"',
             MaxLive=2, MaxDepth=100, InitSBases='<-SB_Diamond',
             InitRBases='<-RB_One', RBaseChoices='<-None',
-            SBaseChoices='<-None', ObsEvery=1)
+            SBaseChoices='<-None', ObsEvery=1, ViaAll='FALSE')
 
 
 def cfgd(**kw):
@@ -77,7 +77,8 @@ SUBCACHE = cfgd(NS=1, NG=2, InitSBases='<-SB_One', InitRBases='<-RB_Two',
 EPCACHE = cfgd(NS=1, NG=2, InitSBases='<-SB_One', InitRBases='<-RB_Two',
                Names='<-NamesE', Muts='{"reg","unreg"}', Queries='{"lookup"}',
                RegKeys='<-RegKeysChain', LookKeys='<-LookKeysChain',
-               Vals='{1,2}', ValMode='"any"', MaxLive=2, MaxDepth=6)
+               Vals='{1,2}', ValMode='"any"', MaxLive=2, MaxDepth=6,
+               ViaAll='TRUE')
 
 INVS = ['TypeOK', 'ExtOK', 'InvWalkIsBest', 'InvEntryPointsAgree',
         'InvSubsExact', 'CacheTransparent', 'RoIsFresh']
@@ -179,7 +180,8 @@ PLAN = {
     'C06': {
         'quick': [
             ('chain d5 push', 'edges', CHAIN, dict(sb='SB_One',
-                                                   rb='RB_None3')),
+                                                   rb='RB_None3',
+                                                   components=True)),
             ('chain d5 verify', 'edges', dict(CHAIN, Flavour='"verify"'),
              dict(sb='SB_One', rb='RB_None3')),
             ('chain3 d4 push', 'edges',
@@ -190,12 +192,12 @@ PLAN = {
                   Flavour='"verify"'),
              dict(sb='SB_One', rb='RB_Chain3')),
             ('diamond5 d4 push', 'edges', DIAMOND,
-             dict(sb='SB_One', rb='RB_Diamond5')),
+             dict(sb='SB_One', rb='RB_Diamond5', components=True)),
         ],
         'thorough': [
             ('chain d6 push', 'edges',
              dict(CHAIN, MaxDepth=6, RBaseChoices='<-RBaseChoices3'),
-             dict(sb='SB_One', rb='RB_None3')),
+             dict(sb='SB_One', rb='RB_None3', components=True)),
             ('chain d6 verify', 'edges',
              dict(CHAIN, MaxDepth=6, RBaseChoices='<-RBaseChoices3',
                   Flavour='"verify"'),
@@ -266,10 +268,22 @@ def run_replay(build, v, pid, consts, opt, mode, cases, budget):
                        'pbases': PB[opt.get('pb', 'PB_Fork')],
                        'rbases': RB[opt['rb']],
                        'leaf_impl': leaf_impl, 'mode': mode, 'cases': sh,
+                       # the class-declaration runs also use the documented
+                       # persistence hooks (custom container types)
+                       'custom_containers': leaf_impl,
                        'seed': seed() * 1000 + si}
                 if opt.get('eq12'):
                     job['eqclass'] = {'1': 1, '2': 1, '3': 2}
                 jobs.append((implv, job))
+    for implv in ('c', 'py'):
+        if opt.get('components') and flavour_of(consts) == 'push':
+            for si, sh in enumerate(shard(cases, max(1, NCPU // 4))):
+                jobs.append((implv, {
+                    'flavour': 'push', 'sbases': SB[opt['sb']],
+                    'pbases': PB[opt.get('pb', 'PB_Fork')],
+                    'rbases': RB[opt['rb']], 'leaf_impl': False,
+                    'mode': mode, 'cases': sh, 'components': True,
+                    'seed': seed() * 1000 + 500 + si}))
     for (implv, job), r in zip(jobs, run_children(build,
                                                   'replay_registry.py',
                                                   jobs)):
@@ -285,7 +299,8 @@ def run_replay(build, v, pid, consts, opt, mode, cases, budget):
                 json.dumps(m['ctx'], sort_keys=True)[:1500])
             v.violation(sig, m, one_case('replay_registry.py', implv, job,
                                          m))
-    v.cov['traces_validated_against_impl'] += 4 * len(cases)
+    v.cov['traces_validated_against_impl'] += len(jobs) // max(
+        1, len(shard(cases, max(1, NCPU // 4)))) * len(cases)
     return len(cases)
 
 
